@@ -284,7 +284,10 @@ class MpWriter(SegmentWriter):
             # If we're not merging the segments, we don't care about the runname
             # and fieldnames in the results... just pull out the segments and
             # add them to the list of final segments
-            finalsegments += [s for _, _, s in results]
+            # (a sub-writer that was given no document hands back an empty
+            # segment: it is not part of the index - as a segment without
+            # documents it made the shortest field length of the collection 0)
+            finalsegments += [s for _, _, s in results if s.doc_count_all()]
             if self._added:
                 finalsegments.append(self._finalize_segment())
             else:
